@@ -48,9 +48,7 @@ OpsObs(L, G) == /\ Ev.pinrows = PinClass(L)
 TOpsCall ==
   /\ pc = "ops"
   /\ IsEv(IF built THEN "refresh" ELSE "build")
-  /\ SetLinkExponents(QOfId(M, Ev.q))
-  /\ hist' = Append(hist, Ev.q)
-  /\ UNCHANGED <<cfg, stepvars>>
+  /\ OpsCall(Ev.q, Ev.form)          \* the logged delivery form: fresh array / same buffer overwritten / view of it
   /\ T.exact => /\ Ev.lap = LapSeq(M, lap')
                 /\ Ev.grad = GradSeq(M, grad')
   /\ Ev.lap_eq = (lap' = BuildLap(M, linkQ', BuildFixed))
@@ -90,7 +88,7 @@ TEnd == /\ IsEv("end") /\ pc = "idle" /\ pc' = "end"
         /\ T.driven => /\ Ev.nonterm_evolved         \* sites outside terminals are never pinned
                        /\ Ev.nonterm_differs
                        /\ (cfg.v = "none" => Ev.term_evolved)
-        /\ UNCHANGED <<cfg, hist, opsvars, step, s, curA, prevA, ind, tv, drifted>>
+        /\ UNCHANGED <<cfg, hist, aliasvars, opsvars, step, s, curA, prevA, ind, tv, drifted>>
 
 TNext == \/ TOpsCall
          \/ TCtor \/ TField \/ TLinks \/ TEuler \/ TInduced \/ TFinish \/ TEnd
